@@ -180,6 +180,13 @@ func TestVerifLruCorrespondence(t *testing.T) {
 		for oi := 0; oi < nops; oi++ {
 			before := h.orderKeys()
 			beforeState := h.state()
+			beforeCur := h.c.currentSize
+			beforeRounded := map[string]int64{}
+			for e := h.c.ll.Front(); e != nil; e = e.Next() {
+				kv := e.Value.(*entry)
+				beforeRounded[kv.key] = (kv.value.sizeOnDisk + 4095) / 4096 * 4096
+			}
+			need := int64(-1) // bytes the operation had to fit (for the minimal-eviction oracle)
 			touched := ""
 			kind := ""
 			switch x := rng.Intn(100); {
@@ -212,6 +219,9 @@ func TestVerifLruCorrespondence(t *testing.T) {
 				rec.Op(fmt.Sprintf("lru.add %s %d %d %s %d", k, sz, od, rnd, lgi), "add="+res+" "+h.state())
 				touched = k
 				kind = "add-" + res
+				if ok {
+					need = (od+4095)/4096*4096 - beforeRounded[k]
+				}
 				if existed {
 					kind = "overwrite-" + res
 				}
@@ -265,6 +275,9 @@ func TestVerifLruCorrespondence(t *testing.T) {
 				code := vErrCode(err)
 				rec.Op(fmt.Sprintf("lru.reserve %d", sz), "reserve="+code+" "+h.state())
 				kind = "reserve-" + code
+				if code == "ok" && sz > 0 {
+					need = sz
+				}
 				// C17 oracle
 				if hard > 0 && sz > 0 && sz <= max && code != "e507r" {
 					tot := new(big.Int).Add(big.NewInt(cur), big.NewInt(q))
@@ -348,6 +361,18 @@ func TestVerifLruCorrespondence(t *testing.T) {
 			af := vWithout(after, touched)
 			if len(af) > len(bf) || !vEqualStrings(bf[:len(af)], af) {
 				rec.Violation("C05", "lru.evict-order."+kind, fmt.Sprintf("survivors %v are not the most-recent prefix of %v", af, bf), rec.CaseOps())
+			}
+			if len(af) < len(bf) && need >= 0 && len(af) <= len(bf) {
+				// C05 oracle: no more is evicted than needed — without the last (most recent)
+				// evicted entry the item would not have fitted
+				var freed int64
+				ev := bf[len(af):] // evicted, most recent first
+				for _, k := range ev[1:] {
+					freed += beforeRounded[k]
+				}
+				if beforeCur-freed+need <= max {
+					rec.Violation("C05", "lru.evict-not-minimal."+kind, fmt.Sprintf("evicted %v although evicting %v would have sufficed (cur=%d need=%d max=%d)", ev, ev[1:], beforeCur, need, max), rec.CaseOps())
+				}
 			}
 			if len(af) < len(bf) {
 				rec.Count("evictions")
